@@ -13,7 +13,7 @@ PID = "C02"
 THEOREM_MODULES = ["GuppyVerif.Props.C02"]
 DRIVER = "C02"
 RULE = (
-    "search on the REAL check()+lowering, six streams: (1) corpus witnesses of the crashes fixed so far; (2) every program of "
+    "search on the REAL check()+lowering, seven streams (the seventh: every tests/error program and 12 % of the rejected mutants re-run in 13 placements/encodings of the source file - error on line 1, last line without newline, blank lines, CRLF, tabs, non-ASCII; imports and the compile call executed outside the file): (1) corpus witnesses of the crashes fixed so far; (2) every program of "
     "/repo/tests/error (run against /repo's sources, which the pinned suite never does) with experimental features on and off; "
     "(3) every test function of /repo/tests/integration turned into a module (accepted seeds); (4) AST mutants of (2)+(3): weird "
     "expressions, wrapped expressions/statements (branches, loops, nested defs, modifier blocks, unreachable code), renamed / "
@@ -57,8 +57,8 @@ MANIFEST = {
     "level_text": "PARTIAL. C02 itself (no non-Guppy exception escapes check/compile for any program) is NOT proved; it is SEARCHED: "
     "~10^4 (quick) / ~2.4*10^5 (thorough) programs per run through the real check()+lowering - /repo's ~480 tests/error programs and "
     "~560 integration tests harvested and run against /repo's own sources, AST mutants of them, generated functions and mutants, a "
-    "std-call sweep - with crash / unrenderable diagnostic / span outside the program / hang as failing inputs (21 such crashes were found "
-    "this way and fixed in 18 commits; their witnesses are re-run first). What Lean proves: (a) inventory theorems over a table regenerated "
+    "std-call sweep - with crash / unrenderable diagnostic / span outside the program / hang as failing inputs (22 such crashes were found "
+    "this way and fixed in 19 commits; their witnesses are re-run first). What Lean proves: (a) inventory theorems over a table regenerated "
     "from /repo's sources on every run: every assert / raise InternalGuppyError / non-Guppy raise / assert_never / zip(strict) / local-dict "
     "subscript in the 8 anchored checker files is classified in the committed Spec (`sites_classified`, `id_lists_faithful`, "
     "`classification_functional`), so a NEW site breaks the proof; 20 of 120 sites are `guarded` by an existing theorem (C08 "
@@ -295,6 +295,12 @@ def _search(ctx, scale: float = 1.0):
             [i for i in idx if not c02_run.POOL[i][0].startswith("error/")], 150)
     for k in range(procs):
         batches.append(("plain", rng.randrange(1 << 30), 0, idx[k::procs]))
+    # layout stream: every tests/error program (quick: a third of them) in 13 placements / encodings of its source file
+    err_idx = [i for i in range(n_pool) if c02_run.POOL[i][0].startswith("error/")]
+    if quick:
+        err_idx = rng.sample(err_idx, len(err_idx) // 3)
+    for k in range(procs):
+        batches.append(("layout", rng.randrange(1 << 30), 0, err_idx[k::procs]))
     n_h = int(ctx.n(3200, 130000) * scale)
     n_g = int(ctx.n(1600, 50000) * scale)
     per = 400
@@ -333,7 +339,9 @@ def _search(ctx, scale: float = 1.0):
         o = f["outcome"]
         what = (f"{o['class']} {sig}: {o.get('exc', o.get('why', ''))} {o.get('msg', '')}"[:300]
                 + f" ({f['n']} programs with this signature; shortest one is the replay)")
-        ctx.violation(f["program"], what, {"program": f["program"], "outcome": o, "mutation": f["kind"], "signature": sig})
+        key = f["program"] if not (f.get("pre") or f.get("post")) else json.dumps([f["pre"], f["program"], f["post"]])
+        ctx.violation(key, what, {"program": f["program"], "pre": f.get("pre", ""), "post": f.get("post", ""), "outcome": o,
+                                  "mutation": f["kind"], "signature": sig})
     ctx.extra["search_streams"] = {"pool_programs": n_pool, "mutable_seeds": len(c02_run.MUTABLE), "std_definitions": len(c02_run.SWEEP),
                                    "batches": len(batches)}
 
@@ -346,11 +354,12 @@ def _corpus(ctx):
     if os.path.isdir(CORPUS):
         for fn in sorted(os.listdir(CORPUS)):
             for w in json.load(open(os.path.join(CORPUS, fn))):
-                cases.append((w["program"], w.get("experimental", True), w.get("name", fn)))
+                cases.append((w["program"], w.get("experimental", True), w.get("name", fn), w.get("pre", ""), w.get("post", "")))
     if ctx.replay_in and "program" in ctx.replay_in.get("replay", {}):
-        cases.append((ctx.replay_in["replay"]["program"], True, "replay"))
-    for src, exp, name in cases:
-        o = c02_run.evaluate(src, experimental=exp)
+        rp = ctx.replay_in["replay"]
+        cases.append((rp["program"], True, "replay", rp.get("pre", ""), rp.get("post", "")))
+    for src, exp, name, pre, post in cases:
+        o = c02_run.evaluate(src, experimental=exp, pre=pre, post=post)
         ctx.count(["corpus", name], nontrivial=o["class"] != "ok", kind="corpus:" + o["class"])
         if o["class"] in BAD:
             ctx.violation(src, f"{o['class']} {o.get('sig')}: {o.get('exc', o.get('why', ''))} {o.get('msg', '')}"[:300] + f" [corpus {name}]",
